@@ -278,6 +278,52 @@ pub trait Monitor {
     fn end(&mut self, _w: &World, _r: &mut Report) {}
 }
 
+/// Runs another property's monitor as an auxiliary oracle and reports what it finds under this property.
+pub struct Relabel {
+    pub inner: Box<dyn Monitor>,
+    pub to: &'static str,
+    pub prefix: &'static str,
+}
+
+impl Relabel {
+    fn fix(&self, r: &mut Report) {
+        let from = self.inner.prop();
+        for p in r.pending.iter_mut() {
+            if p.0 == from {
+                p.0 = self.to.to_string();
+                p.1 = format!("{}{}", self.prefix, p.1);
+                p.2 = format!("{}{}", self.prefix, p.2);
+            }
+        }
+    }
+}
+
+impl Monitor for Relabel {
+    fn prop(&self) -> &'static str {
+        self.to
+    }
+    fn begin(&mut self, w: &World, s0: &Snap, r: &mut Report) {
+        self.inner.begin(w, s0, r);
+        self.fix(r);
+    }
+    fn dry(&mut self, w: &mut World, op: &Op, pre: &Snap, r: &mut Report) {
+        self.inner.dry(w, op, pre, r);
+        self.fix(r);
+    }
+    fn pre(&mut self, w: &World, op: &Op, pre: &Snap, r: &mut Report) {
+        self.inner.pre(w, op, pre, r);
+        self.fix(r);
+    }
+    fn post(&mut self, w: &World, step: &Step, r: &mut Report) {
+        self.inner.post(w, step, r);
+        self.fix(r);
+    }
+    fn end(&mut self, w: &World, r: &mut Report) {
+        self.inner.end(w, r);
+        self.fix(r);
+    }
+}
+
 /// One history: a deployment, the ops executed so far and the monitors watching it.
 pub struct History {
     pub w: World,
